@@ -22,6 +22,7 @@ struct ArrayMonitor : Monitor {
   VerdictMonitor verdicts;
   GammaOpts full, cheap;
   std::map<std::string, AbsVal::P> pre, post;
+  std::map<const AbsVal *, GammaCache> caches; // the invariants are never mutated here
   std::map<std::pair<std::string, int>, AbsVal::P> after_load;
   std::map<std::string, int> seen;
   long checks = 0, load_checks = 0;
@@ -53,8 +54,14 @@ struct ArrayMonitor : Monitor {
     if (it == tbl.end())
       it = tbl.insert({label, is_pre ? an.pre(label) : an.post(label)}).first;
     int &n = seen[label + (is_pre ? "<" : ">")];
+    // exporting the constraints of an array/region domain is expensive: hot
+    // program points are sampled after their first visits
+    if (n >= 24 && (n % 16) != 0) {
+      n++;
+      return true;
+    }
     Sigma sg = sigma_of(f.st, fn.vars, &m.heap);
-    GammaResult g = in_gamma(*it->second, sg, n < 4 ? full : cheap);
+    GammaResult g = in_gamma(*it->second, sg, n < 4 ? full : cheap, &caches[it->second.get()]);
     n++;
     checks++;
     if (!g.ok)
@@ -78,9 +85,13 @@ struct ArrayMonitor : Monitor {
     auto it = after_load.find(key);
     if (it == after_load.end())
       it = after_load.insert({key, an.before_stmt(label, idx + 1)}).first;
-    Sigma sg = sigma_of(f.st, fn.vars, &m.heap);
     int &n = seen[label + "#" + std::to_string(idx)];
-    GammaResult g = in_gamma(*it->second, sg, n < 4 ? full : cheap);
+    if (n >= 48 && (n % 8) != 0) {
+      n++;
+      return true;
+    }
+    Sigma sg = sigma_of(f.st, fn.vars, &m.heap);
+    GammaResult g = in_gamma(*it->second, sg, n < 4 ? full : cheap, &caches[it->second.get()]);
     n++;
     load_checks++;
     if (!g.ok)
